@@ -6,6 +6,8 @@ MSG = {
     'markup': '<b>&amp; "q" \'a\' ]]> </b> & <',
     'spaces': 'two  spaces and a\ttab inside',
     'long': 'long-' + 'x' * 4000,
+    # characters XML 1.0 cannot carry: the fault still arrives (XML family: with U+FFFD in their place)
+    'ctl': 'form\x0cfeed, bell\x07 and \x01',
 }
 SEG = {'uu': 'ü'}
 LEAF = {'x': 'x', 'v': 'v', 'uni': MSG['uni'], 'zero': '0', 'false': 'False'}
